@@ -93,7 +93,7 @@ type Action struct {
 	Desc    string
 	Foreign bool // addressed to another validator's identifier
 	Err     string
-	Calls   []string // runner-level calls made inside
+	Calls   []string              // runner-level calls made inside
 	Msg     *spectypes.SSVMessage `json:"-"` // the delivered message (nil for a direct StartDuty)
 }
 
@@ -420,21 +420,21 @@ type Flight struct {
 }
 
 type Cluster struct {
-	Env     *Env
-	Rng     *rand.Rand
-	Cfg     Config
-	KS      *testingutils.TestKeySet
-	F       int
-	Ops     []*Operator // index = id-1 (entries of adversary-controlled / unbuilt operators have no runners)
-	Pool    []*Flight
-	Acts    []string
-	OnSign  func(op *Operator, ev *SignEvent)
-	tickMu  sync.Mutex
-	ticks   int64
-	seq     int
-	tag     string
-	QueueMismatch int // queue mode: pops the driver's model of the queue filter did not predict
-	QueueStuck    bool
+	Env                                      *Env
+	Rng                                      *rand.Rand
+	Cfg                                      Config
+	KS                                       *testingutils.TestKeySet
+	F                                        int
+	Ops                                      []*Operator // index = id-1 (entries of adversary-controlled / unbuilt operators have no runners)
+	Pool                                     []*Flight
+	Acts                                     []string
+	OnSign                                   func(op *Operator, ev *SignEvent)
+	tickMu                                   sync.Mutex
+	ticks                                    int64
+	seq                                      int
+	tag                                      string
+	QueueMismatch                            int // queue mode: pops the driver's model of the queue filter did not predict
+	QueueStuck                               bool
 	Delivered, Dropped, Duplicated, Timeouts int
 }
 
